@@ -7,7 +7,7 @@
      vpn.rs, labeled.rs, mpls.rs.  NLRI of the other families enter as their
      wire bytes ([NRaw]): their framing is modelled, their inner encoding is not.
      Modelled structurally besides the prefix families: Flowspec (x4), RTC, EVPN route
-     types 1-5, SR Policy (x2), MUP route types 1-4 (x2); still opaque: BGP-LS.
+     types 1-5, SR Policy (x2), MUP route types 1-4 (x2), BGP-LS (TLV level).
 
    Bytes are [N] (< 256), buffers are [list N].  A message is encoded into a
    list of frames.  Machine arithmetic that can overflow is written through
@@ -212,6 +212,30 @@ Definition enc_rtc (r : rtc) : list N :=
   | RtcExact a rt => [96] ++ be32 a ++ rt
   end.
 
+(* ---- BGP-LS (ls.rs): NLRI = <type (2), length (2), protocol id, identifier (8), descriptor TLVs>;
+   a TLV is <type (2), length (2), value> (write_tlv); the node descriptors sit in a container TLV
+   (256 local, 257 remote).  A descriptor is modelled as the pair <type, value octets> that the
+   struct field / enum variant is written as; node descriptor fields are written in type order. *)
+Definition enc_tlv16 (t : N * list N) : list N := be16 (fst t) ++ be16 (trunc16 (len (snd t))) ++ snd t.
+Inductive lsn :=
+| LsNode (proto id : N) (local : list (N * list N))
+| LsLink (proto id : N) (local remote link : list (N * list N))
+| LsPfx (v6 : bool) (proto id : N) (local pfx : list (N * list N))
+| LsSrv6 (proto id : N) (local : list (N * list N)) (sids : list (N * list N))    (* <multi-topology id, SID (16)> *)
+| LsOther (ty : N) (body : list N).
+Definition ls_container (c : N) (l : list (N * list N)) : list N := enc_tlv16 (c, flat_map enc_tlv16 l).
+Definition enc_ls (n : lsn) : list N :=
+  let '(ty, body) :=
+    match n with
+    | LsNode p i l => (1, p :: be64 i ++ ls_container 256 l)
+    | LsLink p i l r k => (2, p :: be64 i ++ ls_container 256 l ++ ls_container 257 r ++ flat_map enc_tlv16 k)
+    | LsPfx v6 p i l k => (if v6 then 4 else 3, p :: be64 i ++ ls_container 256 l ++ flat_map enc_tlv16 k)
+    | LsSrv6 p i l s =>
+        (6, p :: be64 i ++ ls_container 256 l ++ flat_map (fun x => enc_tlv16 (518, be16 (fst x) ++ [0; 0] ++ snd x)) s)
+    | LsOther t b => (t, b)
+    end in
+  be16 ty ++ be16 (trunc16 (len body)) ++ body.
+
 (* ---- MUP (mup.rs): architecture type 1 (3GPP-5G), route types 1-4 *)
 Inductive mup :=
 | Mup1 (rd : list N) (plen : N) (addr : list N)                                  (* Interwork Segment Discovery *)
@@ -247,6 +271,7 @@ Inductive nlri :=
 | NEvpn (e : evpn)
 | NSrp (dist color : N) (endpoint : list N)                    (* SrPolicyNlri; endpoint = 4 or 16 octets *)
 | NMup (m : mup)
+| NLs (n : lsn)
 | NRaw (bytes : list N).                                       (* any other family: its wire bytes *)
 
 Definition pnlri : Type := N * nlri.     (* PathNlri { path_id, nlri } *)
@@ -290,6 +315,7 @@ Definition enc_nlri (p : profile) (n : nlri) : res (list N) :=
   | NEvpn e => Ok (enc_evpn e)
   | NSrp d c ep => Ok ([if len ep =? 4 then 96 else 192] ++ be32 d ++ be32 c ++ ep)
   | NMup m => enc_mup m
+  | NLs n => Ok (enc_ls n)
   | NRaw b => Ok b
   end.
 
@@ -676,6 +702,8 @@ Definition bulk_entry (kind i : N) : pnlri :=
   | 12 => (i + 1, NSrp i (100 + i mod 3) (10 :: b3 i))
   | 13 => (i + 1, NEvpn (Ev5 ([0; 2; 0; 1] ++ 0 :: b3 i) (pat_bytes 10 i) i (i mod 129)
                              ([32; 1; 13; 184] ++ b3 i ++ pat_bytes 9 i) (pat_bytes 16 (i + 1)) 7))
+  | 16 => (i + 1, NLs (LsPfx false (1 + i mod 7) i [(512, be32 (65000 + i mod 9)); (515, pat_bytes 4 i)]
+                             [(263, be16 (i mod 4096)); (265, 24 :: b3 i)]))
   | 15 => (i + 1, NMup (Mup3 ([0; 0; 253; 232] ++ 0 :: b3 i) (i mod 33) (10 :: b3 i) i (i mod 64) [192; 0; 2; 1]
                               (if i mod 2 =? 0 then None else Some [198; 51; 100; 7])))
   | 14 => (i + 1, NFlow true (Some ([0; 0; 253; 232] ++ 0 :: b3 i)) [FOps 3 [(129, 6)]; FOps 5 [(3, 1000 + i mod 50000); (197, 70000)]])
